@@ -1,6 +1,6 @@
 (* Per-run source tie for socketwrapper.SocketWrapper: the PyO interpretation (Src/PyO.v) of the CURRENT source text of
      SocketWrapper.__init__ / _recv / read / readline / dechunk
-   (translated by tools/gen_src2.py into PyRtcmGen.SrcO) equals the hand-written model (Model/Socket.v) for EVERY
+   (translated by tools/gen_src2.py into PyRtcmGen.SrcOSock) equals the hand-written model (Model/Socket.v) for EVERY
    encoding, buffer size, zlib behaviour, socket behaviour whose failures are of a class `_recv` catches, and every
    model state -- as long as the model stays in its modelled territory (unm = false) and the iteration budget of the
    interpreter's `while` is at least the stated bound.  The environment instantiation is Src/SockEnv.v.
@@ -9,7 +9,7 @@
 From Coq Require Import ZArith NArith List String Bool Lia.
 From Coq.Strings Require Import Byte.
 From PyRtcm Require Import Base.Bytes Model.Types Model.Reader Model.Socket Src.PyO Src.PyOLemmas Src.PyOSockLemmas Src.SockEnv.
-From PyRtcmGen Require Import SrcO.
+From PyRtcmGen Require Import SrcOSock.
 Import ListNotations.
 Open Scope string_scope.
 Open Scope Z_scope.
